@@ -216,6 +216,9 @@ fn cfg_for(prop: Prop, tier: Tier) -> Cfg {
     }
 }
 
+/// C09 runs the memory-limit / call-arity grid of the structure layer with C01's comparison rules.
+pub fn cfg_for_c09(tier: Tier) -> Cfg { cfg_for(Prop::C01, tier) }
+
 /// The search spaces per property and tier: (alphabet, shape, max body length).
 fn spaces(prop: Prop, tier: Tier) -> Vec<Space> {
     let i32f = Shape { ret: Some(VT::I32), hosts: false, extra: 0 };
@@ -269,6 +272,10 @@ fn spaces(prop: Prop, tier: Tier) -> Vec<Space> {
 fn run_program_property(cli: &Cli, prop: Prop) -> ! {
     let report = Report::new(cli);
     let cfg = cfg_for(prop, cli.tier);
+    if cli.extra.get("part").map(|s| s.as_str()) == Some("structure-common") {
+        structure::run_common(&cfg, &report, cli.tier);
+        report.finish(true, json!("structure-common"));
+    }
     // artefacts with a program witness are re-evaluated alone; any other artefact of this engine
     // is replayed by re-running the enumeration with the witness as a filter (mc_core)
     if let Some((doc, (shape, body))) = cli.replay.as_ref().map(|p| mc_core::load_replay(p)).and_then(|d| check::witness_parse(&d["witness"]).map(|w| (d, w))) {
@@ -335,7 +342,7 @@ fn run_program_property(cli: &Cli, prop: Prop) -> ! {
         optable::run(&report, cli.tier);
     }
     // module structures the body search keeps fixed (C01 against the reference, C13 fresh vs. reloaded)
-    structure::run_common(&cfg, &report, cli.tier);
+    structure::run_common_guarded(&report, cli.tier);
     if prop != Prop::C02 {
         structure::run(&cfg, &report, cli.tier);
     }
